@@ -45,7 +45,7 @@ contract(G_, 'Merger.write_spike_clusters', props=['C11'], params={},
               ('order-indexes-the-concatenation', 'len(self.spike_order) == %s and all(0 <= self.spike_order[i] and self.spike_order[i] < %s for i in range(%s))' % (_N, _N, _N)),
               ('order-reaches-every-spike', 'all(any(self.spike_order[i] == rpsum(%s, p) + j for i in range(%s)) for p in range(len(%s)) for j in range(len(%s[p])))' % (_SC, _N, _SC, _SC))],
     locals={'cluster_probes_l': 'rag[int]', 'spike_clusters_l': 'rag[int]', 'spike_templates_l': 'rag[int]'},
-    cuts=[('spike_clusters = _load_multiple_spike_arrays', 'merged-ids-below-the-total', 'all(spike_clusters[i] < coffset and spike_clusters[i] >= 0 for i in range(len(spike_clusters)))'),
+    cuts=[('for i, (subdir, sc, st) in enumerate(', 'all-shifted-ids-below-the-total', 'all(0 <= spike_clusters_l[p][i] and spike_clusters_l[p][i] < coffset for p in range(len(spike_clusters_l)) for i in range(len(spike_clusters_l[p])))'),
           ('cluster_probes = _concat', 'probe-table-size', 'len(cluster_probes) == coffset')],
     # the code's own consistency assert needs "the largest merged id is attained", i.e. that the spike order reaches every spike: not proved (no trigger for a
     # bare position variable), assumed here and exercised by the bounded stand-in
